@@ -139,6 +139,27 @@ def read_back(fn, nl):
 
 
 # ------------------------------------------------------------------ drivers
+def _decoy_at(p, ext, fmt):
+    """Write another molecule to the path and load it: what is read later from the same path is the file as it is then."""
+    import numpy as np
+    from chmpy import Molecule
+    try:
+        m = Molecule.from_arrays(np.array([2, 10]), np.array([[0.25, 0.5, 0.75], [3.0, 3.5, 4.0]]))
+        if ext.startswith("."):
+            m.save(p)
+            Molecule.load(p)
+        else:
+            m.save(p, fmt=ext)
+            Molecule.load(p, fmt=ext)
+    except Exception:  # noqa: BLE001
+        pass
+    finally:
+        try:
+            os.remove(p)
+        except OSError:
+            pass
+
+
 def sdf_write_read(mol_specs, nl, route, ext, d):
     """mol_specs: [(atoms, gb)] -> (mols-in, wexc, lines, back)"""
     from chmpy import Molecule
@@ -172,6 +193,7 @@ def sdf_write_read(mol_specs, nl, route, ext, d):
         back = read_back(lambda: [Molecule.from_sdf_dict(x) for x in parse_sdf_contents(data.decode("latin-1"))], 1)
     else:
         p = os.path.join(d, "joined" + (ext if ext.startswith(".") else ".dat"))
+        _decoy_at(p, ext, "sdf")                 # the path held another molecule a moment ago and was read then
         with open(p, "wb") as fh:
             fh.write(data)
         if ext.startswith("."):
@@ -327,6 +349,7 @@ def drive_xyz_rt(r, d):
         else:
             ext = r["ext"]
             p = os.path.join(d, "w" + (ext if ext.startswith(".") else ".dat"))
+            _decoy_at(p, ext, "xyz")
             if ext.startswith("."):
                 m.save(p)
             else:
